@@ -739,10 +739,9 @@ func ValOf(e *T) *T {
 func MkIface(dyn, val *T) *T { return App("mkI", SIface, dyn, val) }
 func IfaceIsNil(e *T) *T    { return Eq(Dyn(e), IntLit(0)) }
 
-// IfaceEq is Go's == on interface values (when it does not panic).
+// IfaceEq is Go's == on interface values (when it does not panic). Every ground interface-sorted
+// term is constrained to be well-formed (dyn == 0 ==> the nil interface, see BuildSMT), so Go
+// equality coincides with SMT equality.
 func IfaceEq(a, b *T) *T {
-	if a.String() == b.String() {
-		return tTrue
-	}
-	return And(Eq(Dyn(a), Dyn(b)), Or(Eq(Dyn(a), IntLit(0)), Eq(ValOf(a), ValOf(b))))
+	return Eq(a, b)
 }
